@@ -365,8 +365,47 @@ pub fn exact_multiples(bits: usize, ds: &[u64]) -> Vec<(Limbs, Limbs)> {
     out.dedup();
     out
 }
+/// H36: limbs whose two 32-bit halves are drawn from {0, 1, 2, 2^31, 2^32-2, 2^32-1} (every combination): the carry
+/// structure of a 64 x 64 multiplication done on half words.
+pub fn h36() -> Vec<u64> {
+    let h = [0u64, 1, 2, 1 << 31, (1 << 32) - 2, (1 << 32) - 1];
+    let mut v = vec![];
+    for hi in h {
+        for lo in h {
+            v.push((hi << 32) | lo);
+        }
+    }
+    v.sort();
+    v.dedup();
+    v
+}
+/// n = d * 2^k + delta for every k that is a multiple of 32 (a remainder of d-1 followed by all-ones half limbs when delta = -1)
+pub fn shifted_multiples(bits: usize, ds: &[u64]) -> Vec<(Limbs, Limbs)> {
+    let m = pow2(bits);
+    let mut out = vec![];
+    for &d in ds {
+        let bd = BigUint::from(d);
+        if d == 0 || bd >= m {
+            continue;
+        }
+        let dl = to_limbs(&bd, bits);
+        let mut k = 0usize;
+        while k < bits {
+            let base = &bd << k;
+            for x in [&base - 1u32, base.clone(), &base + 1u32, (&base << 1usize) - 1u32, &base * 3u32 - 1u32] {
+                if x < m {
+                    out.push((to_limbs(&x, bits), dl.clone()));
+                }
+            }
+            k += 32;
+        }
+    }
+    out.sort();
+    out.dedup();
+    out
+}
 /// Ordinary-looking one-limb divisors: small odd primes, an odd divisor of 2^64-1, products with powers of two, a 20-bit and a 64-bit prime-like constant.
-pub const ORDINARY_DIVISORS: &[u64] = &[3, 7, 10, 11, 13, 56, 641, 1_000_003, 1_000_003 << 5, 4_294_967_291, 10_000_000_000_000_000_000, 0x9E37_79B9_7F4A_7C15, 0x0101_0101_0101_0101, 7 << 40];
+pub const ORDINARY_DIVISORS: &[u64] = &[3, 7, 10, 11, 13, 56, 641, 1_000_003, 1_000_003 << 5, 3_037_000_499, 4_000_000_000, 0x8000_0001, 0xffff_fffe, 0xffff_ffff, 0x1_0000_0001, 4_294_967_291, 10_000_000_000_000_000_000, 0x9E37_79B9_7F4A_7C15, 0x0101_0101_0101_0101, 7 << 40];
 
 /// `pick`, but never larger than `budget`: when even P'(B) is too large it is thinned evenly (0 and MAX are kept).
 pub fn pick_capped(bits: usize, budget: usize, extra: &[u64]) -> (Vec<Limbs>, String) {
